@@ -5,7 +5,7 @@ CONSTANTS
   Limits <- MCLimits
   HBMode = "on"
   Table = "GPOS"
-  Shapes = {"2x1", "1x2"}
+  Shapes = {"2x1"}
 INIT MInit
 NEXT RNext
 CONSTRAINTS Bounded NoStuckLig GenEmit Stat
